@@ -235,13 +235,20 @@ func (n *Node) write(b *bytes.Buffer, parentNS string) {
 		_ = xml.EscapeText(b, []byte(n.Name.Space))
 		b.WriteString(`"`)
 	}
-	for _, a := range n.Attr {
+	for i, a := range n.Attr {
 		if isNSDecl(a) {
 			continue
 		}
 		name := a.Name.Local
 		if a.Name.Space == "xml" || a.Name.Space == "http://www.w3.org/XML/1998/namespace" {
 			name = "xml:" + name
+		} else if a.Name.Space != "" {
+			// an attribute in some other namespace: declare a prefix for it
+			pfx := fmt.Sprintf("xa%d", i)
+			b.WriteString(" xmlns:" + pfx + `="`)
+			_ = xml.EscapeText(b, []byte(a.Name.Space))
+			b.WriteString(`"`)
+			name = pfx + ":" + name
 		}
 		b.WriteString(" " + name + `="`)
 		_ = xml.EscapeText(b, []byte(a.Value))
